@@ -182,6 +182,13 @@ def gen(ch):
     sc["n"] = ch.between(1, 40)  # batch size / n of nlargest / islice step
     sc["gb"] = (ch.draw(3), ch.draw(3))  # groupby: key (none | item itself | derived), consumption (keys | peek | all)
     sc["lens"] = [max(10, sc["length"] - ch.draw(40)) for _ in range(sc["nsrc"])]
+    if t == "zip_longest" and sc["nsrc"] >= 2 and ch.chance(1, 2):
+        # very unequal lengths: most sources have ended long before the longest one
+        sc["lens"] = [max(10, sc["length"] // (1, 3, 4)[s]) for s in range(sc["nsrc"])]
+    sc["strict"] = t == "zip" and ch.chance(1, 2)
+    if sc["strict"]:
+        sc["lens"] = [sc["lens"][0]] * sc["nsrc"]
+    sc["keyed"] = t in ("nlargest", "nsmallest", "min", "max") and ch.chance(1, 2)
     sc["chunks"] = t == "sum" and ch.chance(1, 3)   # sum over list chunks with a list start
     if t == "tee":
         sc["transient_at"] = ch.draw(sc["length"]) if ch.chance(1, 4) else None
@@ -276,6 +283,9 @@ def execute(st, ctx):
     def second(a, b):
         return b
 
+    async def keyof_(x):
+        return x.key
+
     async def consumer():
         n = sc["n"]
         if is_agg:
@@ -287,15 +297,15 @@ def execute(st, ctx):
             elif tool == "sum":
                 aw = L.sum(S, []) if sc.get("chunks") else L.sum(S)
             elif tool == "min":
-                aw = L.min(S)
+                aw = L.min(S, key=keyof_) if sc.get("keyed") else L.min(S)
             elif tool == "max":
-                aw = L.max(S, key=truthy) if sc["every"] == 7 else L.max(S)
+                aw = L.max(S, key=truthy) if sc["every"] == 7 else (L.max(S, key=keyof_) if sc.get("keyed") else L.max(S))
             elif tool == "reduce":
                 aw = L.reduce(second, S)
             elif tool == "nlargest":
-                aw = L.nlargest(S, n)
+                aw = L.nlargest(S, n, key=keyof_) if sc.get("keyed") else L.nlargest(S, n)
             else:
-                aw = L.nsmallest(S, n)
+                aw = L.nsmallest(S, n, key=keyof_) if sc.get("keyed") else L.nsmallest(S, n)
             value = await aw
             del value
             res["end"] = "value"
@@ -402,7 +412,7 @@ def execute(st, ctx):
             res["end"] = "stop"
             return
         if tool == "zip":
-            it = L.zip(*S)
+            it = L.zip(*S, strict=True) if sc.get("strict") else L.zip(*S)
         elif tool == "map":
             it = L.map(lambda *a: len(a), *S)
         elif tool == "filter":
